@@ -170,6 +170,7 @@ table SinglePosFormat2 {
     /// Array of ValueRecords — positioning values applied to glyphs.
     #[count($value_count)]
     #[read_with($value_format)]
+    #[validate(check_format_consistency)]
     value_records: ComputedArray<ValueRecord>,
 }
 
